@@ -94,8 +94,8 @@ func streamEscape(e *Emitter, rng *rand.Rand, tier string) {
 	}
 }
 
-var litPool = []string{"v1", "a", "b", "shelves", "books", "x.y", "a%20b", "%41", "a-b~c", "%2F", "c%2fd", "%e4%b8%96"}
-var verbPool = []string{"", "", "", "get", "cancel", "x%2Fy", "a.b"}
+var litPool = []string{"v1", "a", "b", "shelves", "books", "x.y", "a%20b", "%41", "a-b~c", "%2F", "c%2fd", "%e4%b8%96", "a%252Fb", "%252f", "%25"}
+var verbPool = []string{"", "", "", "get", "cancel", "x%2Fy", "a.b", "v%252Fw"}
 var namePool = []string{"name", "id", "a.b", "parent", "x_1", "book.shelf"}
 
 func genSegments(rng *rand.Rand, depth int, allowDstar bool, names *int) []string {
@@ -158,7 +158,7 @@ func genTemplate(rng *rand.Rand) string {
 }
 
 var segPool = []string{"", "v1", "a", "b", "shelves", "books", "x.y", "a%20b", "a b", "%41", "A", "100%25", "a%2Fb", "a%2fb",
-	"a%3Ab", "a:b", "%zz", "%", "*", "**", "世", "%e4%b8%96", "c%2fd", "%2F", "a-b~c", "x:get", "q?x"}
+	"a%3Ab", "a:b", "%zz", "%", "*", "**", "世", "%e4%b8%96", "c%2fd", "%2F", "a-b~c", "x:get", "q?x", "a%252Fb", "%252f", "%25", "%2525"}
 
 // instantiate a template into a request path that is meant to match it
 func pathFor(rng *rand.Rand, tmpl string) string {
